@@ -152,12 +152,12 @@ class Environment:
                 return NULL
             if isinstance(value, Value):
                 return value
+            elif isinstance(value, bool):      # before int: a bool is one
+                return ValueBoolean.fromval(value)
             elif isinstance(value, int):
                 return ValueInt(value)
             elif isinstance(value, float):
                 return ValueDecimal(value)
-            elif isinstance(value, bool):
-                return ValueBoolean.fromval(value)
             elif isinstance(value, datetime.datetime):
                 return ValueDate(value)
             else:
